@@ -705,18 +705,21 @@ func (sh *SyncHandler) addBlobToCopy(sb blob.SizedRef) bool {
 }
 
 func (sh *SyncHandler) enqueue(sb blob.SizedRef) error {
-	if !sh.addBlobToCopy(sb) {
-		// Dup
-		return nil
-	}
+	// Write the persistent queue row first, and also when the blob
+	// is already pending in memory: the in-memory entry does not
+	// imply that the row exists (an earlier queue write may have
+	// failed, or may still be in flight), and the upload must not
+	// be acknowledged before the row is durable.
+	//
 	// TODO: include current time in encoded value, to attempt to
 	// do in-order delivery to remote side later? Possible
 	// friendly optimization later. Might help peer's indexer have
 	// less missing deps.
-	if err := sh.queue.Set(sb.Ref.String(), fmt.Sprint(sb.Size)); err != nil {
-		return err
-	}
-	return nil
+	err := sh.queue.Set(sb.Ref.String(), fmt.Sprint(sb.Size))
+	// Even if the queue write failed, still try to copy the blob
+	// for as long as this process lives.
+	sh.addBlobToCopy(sb)
+	return err
 }
 
 func (sh *SyncHandler) startFullValidation() {
